@@ -52,3 +52,43 @@ check("C16", "exploration",
       "term; save -> load gives identical floats; thorough also retrains on the bundled corpus samples.",
       "reference model vf/spec/nb_ref.py; single-class training sets are outside the domain",
       "icontract post-condition on the real predict_log_proba + independent reference model on random corpora", "DESIGN.md 3/C16")
+
+check("C01", "fault_enumeration",
+      "No exception escaped ctparse(), the exhausted ctparse_gen stream, str() or repr(), and result shapes were right, on "
+      "every observed call over four hostile generators (impossible dates, stacked modifiers, empty/label-only text, token "
+      "soup, arbitrary Unicode, mutated corpus texts) x reference times 1970-2100 x the option cross product; the one "
+      "configuration fault of the property (model file absent) is enumerated in a fresh interpreter (and a scratch package "
+      "without models/ in the thorough tier) with the documented fallback asserted.",
+      "termination judged on a step budget, never wall-clock; CPython, regex, dateutil as shipped",
+      "API call/return + rule-exception recorder over hostile generators; fresh-process fault injection for the absent model", "DESIGN.md 3/C01")
+
+check("C02", "exploration",
+      "Every candidate of every observed stream (latent on and off) was well formed: field ranges, part of day known to the "
+      "library's table, day exists in month/year, dated interval start <= end; start/end/dt accessors called without "
+      "raising; span inside the normalised text with start < end.",
+      "interval compared as [start of first end, end of last end]; step budget as C01",
+      "tee on all stream candidates + well-formedness oracle over the C01 generators and grammar compositions", "DESIGN.md 3/C02")
+
+check("C14", "exploration",
+      "In one execution per case (tees on the stream ctparse() consumes and on the pre-latent search) the returned object "
+      "was a streamed candidate of maximal score with identical fields, empty iff the stream was empty, all scores finite "
+      "floats, and pre-latent no value repeated without a strictly higher score.",
+      "value identity by the independent value model; timeout=0; step budget as C01",
+      "stream tee inside a single execution + membership/max/finite/monotone-repeat trace predicates", "DESIGN.md 3/C14")
+
+check("C18", "exploration",
+      "icontract post-conditions on the real Artifact.__eq__/__hash__ (value model as oracle) evaluated on all 128 field "
+      "masks x sampled full-range values x every single-field perturbation, all pairs of an interval-end pool incl. open "
+      "ends, durations 0..120 x units, cross-kind/foreign operands and the comparisons made by the search's own dedup "
+      "tables during real parses; text form injective (collision table) and round-trips, incl. every gold string.",
+      "value model vf/spec/values.py reads plain attributes only",
+      "icontract contracts on __eq__/__hash__ + collision tables + round-trip oracle", "DESIGN.md 3/C18")
+
+check("C19", "exploration",
+      "Import-time event log (sys.monitoring in a fresh interpreter: 69 rule() calls, 69 registrations) agrees with the "
+      "registry, the syntax tree of rules.py and the shipped vocabulary; no adjacent regex predicates, pattern text <-> id "
+      "bijective, no pattern matches '' or yields a zero-length match on probes and on every match event of the workload; "
+      "every part-of-day modifier chain to depth 3/4 through the real rule stays inside the table; every registered rule "
+      "fired at least once (per-rule counters) on the bundled corpus + grammar workload.",
+      "a rule silent on the bundled corpus is reported as unable to fire",
+      "sys.monitoring import-time event log + per-rule firing counters + match-event monitor vs registry/AST/model", "DESIGN.md 3/C19")
